@@ -204,8 +204,19 @@ def write_domain(bms, lanes):
             cells.add((c, g))
             res.append((b, dist <= F(1, 10**7), g))
         out.append((kind, c, s, res))
-    if cells & {(c, b) for c in cols for b in []}:
-        pass
+    # LNOBJ closes the time-preceding object of its lane: an object between a
+    # hold's head and tail on the same lane cannot be denoted by the format
+    spans = {}
+    for kind, c, s, res in out:
+        if kind == "hold":
+            spans.setdefault(c, []).append((res[0][2], res[1][2]))
+    for kind, c, s, res in out:
+        for r in res:
+            if r is not None and any(a < r[2] < b for a, b in spans.get(c, [])):
+                return "object_inside_a_hold_of_its_lane", None
+    for c, sp in spans.items():
+        if any(b <= a for a, b in sp):
+            return "hold_shorter_than_a_grid_step", None
     return None, (tl, beats, pts, out)
 
 
@@ -224,8 +235,8 @@ def judge_write(ctx, args, kwargs, result, exc, pre):
         return ctx.ood("bms.write", why)
     tl, beats, pts, objs = info
     exact_bpm = all(round(v, 3) == v for _, v, _ in pts)
-    feat = dict(layout=layout_name(config), n_tempo=len(pts), bpm_3_decimals=exact_bpm,
-                n_objects=len(objs), off_grid=any(not r[1] for *_, res in objs for r in res if r))
+    feat = dict(layout=layout_name(config), many_tempo=len(pts) > 5, bpm_3_decimals=exact_bpm,
+                off_grid=any(not r[1] for *_, res in objs for r in res if r))
     wit = dict(layout=feat["layout"], tempo=pts[:50], objects=[(k, c, [None if r is None else float(r[0]) for r in res]) for k, c, s, res in objs][:80])
     if exc is not None:
         return ctx.violate("C05", "bms.write", "raises", f"BMSMap.write raised {type(exc).__name__}: {exc}",
